@@ -193,6 +193,8 @@ def universe():
          # numpy scalars of another width; numbers where float64 stops being exact (numpy == rounds the int, python == does not)
          F32(1.0), F32(2.5), F32(nan), BIG, BIG + 1, float(BIG), np.int64(BIG), np.int64(BIG + 1), np.float64(BIG), [BIG + 1], [np.float64(BIG)],
          A('i', (1,), BIG + 1), A('f', (1,), float(BIG)), A('e', (2,), 1.0, nan), A('e', (2,), 1.0, 2.5), A('f', (2,), 1.0, 2.5),
+         # distinct floats that numpy's tolerance comparisons (isclose / allclose, rtol 1e-5) call equal
+         A('f', (1,), 100000.0), A('f', (1,), 100000.25), A('f', (1,), 100000.5), [100000.0], [100000.25], S([0], 100000.0), S([0], 100000.25),
          S([BIG], 1.0), S([float(BIG)], 1.0), S([BIG + 1], 1.0),
          # axis labels: a string that spells a date is not that date; NaN / NaT labels are labels
          S(['2020-01-01'], 1.0), S([D(2020, 1, 1)], 1.0), S(['2020-01-01 00:00'], 1.0), S([ts], 1.0),
@@ -250,9 +252,10 @@ def rand_num(rng, dtype):
     if dtype == 'i':
         return rng.choice([0, 1, 2, 3, -1, BIG, BIG + 1])
     if dtype == 'f':
-        return rng.choice([0.0, 1.0, 2.0, 2.5, -0.25, float('nan'), float('nan'), float(BIG)])
+        # 100000.0 / 100000.25 / 100000.5: distinct numbers that are 'close' for np.isclose / np.allclose (rtol 1e-5) - seeded C14-q2
+        return rng.choice([0.0, 1.0, 2.0, 2.5, -0.25, float('nan'), float('nan'), float(BIG), 100000.0, 100000.25, 100000.5])
     if dtype == 'e':
-        return rng.choice([0.0, 1.0, 2.0, 2.5, -0.25, float('nan')])
+        return rng.choice([0.0, 1.0, 2.0, 2.5, -0.25, float('nan'), 100000.0, 100000.25])
     if dtype == 'b':
         return rng.choice([True, False])
     return rng.choice(['a', 'b', 'ab', ''])
@@ -492,7 +495,26 @@ def compare(case, i, line, ir, mr):
             return 'eq is True although shape / index / columns differ'
         if plain(x) and plain(y):
             return 'eq(x, y) = %s but x == y is %s on NaN-free plain values' % (ir, dec(x) == dec(y))
+        k = _float_cell_differs(x, y)
+        if ir == 'ok B:1' and k is not None:
+            return 'eq is True although the float cells at position %d differ (%s vs %s): arrays / pandas objects are equal only if ALL cells match' % k
     return ('divergence', 'implementation %s, model %s' % (ir, mr))
+
+
+def _float_cell_differs(x, y):
+    """two arrays of the same float dtype / two Series / two frames whose cells are all python floats (no int next to a float: pandas
+    would round it into the column's dtype): the first position at which two non-NaN cells are different numbers, else None"""
+    if not (isinstance(x, list) and isinstance(y, list) and x[0] == y[0] and x[0] in ('A', 'S', 'DF')):
+        return None
+    if x[0] == 'A' and (x[1] != y[1] or x[1] not in 'fe'):
+        return None
+    cx, cy = x[{'A': 3, 'S': 2, 'DF': 3}[x[0]]:], y[{'A': 3, 'S': 2, 'DF': 3}[x[0]]:]
+    if len(cx) != len(cy) or not all(isinstance(c, str) and c.startswith('F:') for c in cx + cy):
+        return None
+    for i, (a, b) in enumerate(zip(cx, cy)):
+        if a != b and 'nan' not in a and 'nan' not in b:
+            return (i, a, b)
+    return None
 
 
 def nontrivial(line, reply):
